@@ -36,6 +36,10 @@ class K:
         """Prop."""
         return ""
 
+    @property
+    def pt(self) -> tuple[int, str]:
+        """Prop returning a pair."""
+
 
 def f(a: int = 1, b=2, *args: str, **kwargs: bool) -> int:
     """Function."""
@@ -48,9 +52,27 @@ def t() -> tuple[int, str]:
 
 def g() -> Generator[tuple[int, str], tuple[int, str], tuple[int, str]]:
     """Generator of pairs."""
+
+
+def t0() -> tuple[()]:
+    """Returns the empty tuple."""
+
+
+def g1() -> Generator[int]:
+    """Generator annotation with one type argument."""
+
+
+def g2() -> Generator[int, None]:
+    """Generator annotation with two type arguments."""
+
+
+def it() -> Iterator[int]:
+    """Iterator."""
 '''
 
-PARENT_PATH = {"module": None, "class": "K", "function": "f", "init": "K.__init__", "property": "K.p", "tuplefn": "t", "genfn": "g"}
+PARENT_PATH = {"module": None, "class": "K", "function": "f", "init": "K.__init__", "property": "K.p", "tuplefn": "t", "genfn": "g",
+               # return annotation EXPRESSIONS with fewer elements than a docstring may document items / than the readers index
+               "tupleprop": "K.pt", "tuple0fn": "t0", "gen1fn": "g1", "gen2fn": "g2", "iterfn": "it"}
 # "aliasmod": a module in which every name the concretisers document (n0.., x, y) is imported from a package that is
 # not loaded: looking such a member up gives an alias that cannot be resolved
 ALIAS_SOURCE = '"""Module am."""\nfrom ext import ' + ", ".join([f"n{i}" for i in range(80)] + ["x", "y"]) + "\n"
